@@ -51,8 +51,7 @@ def opensMarkup (c : Char) : Bool := isAlpha c || c = '/' || c = '!' || c = '?'
 
 def textSafe : List Char → Bool
   | [] => true
-  | '<' :: r => (match r with | c :: _ => !opensMarkup c | [] => false) && textSafe r
-  | _ :: r => textSafe r
+  | c :: r => (c != '<' || (match r with | d :: _ => !opensMarkup d | [] => false)) && textSafe r
 
 /-- names of raw-text elements as the theorems need them: not empty, lower-case ASCII letters -/
 def goodRawTag (tag : List Char) : Bool := !tag.isEmpty && tag.all (fun c => isAlpha c && lower c == c)
